@@ -65,6 +65,8 @@ func runC15(c *Ctx) {
 			go func(r int) {
 				defer wg.Done()
 				last := -1
+				var held []metav1.Object
+				var heldIDs []int
 				for n := 0; ; n++ {
 					select {
 					case <-stop:
@@ -84,10 +86,32 @@ func runC15(c *Ctx) {
 						vers[o.GetResourceVersion()] = true
 					}
 					sort.Ints(ids)
-					// the returned slice belongs to the caller: scribbling on it must not
-					// show up anywhere
-					for i := range l {
-						l[i] = nil
+					// the returned slice belongs to the caller: a snapshot held across the
+					// next read must not change, and scribbling on one must not show up
+					// anywhere
+					if held != nil {
+						cur := make([]int, 0, len(held))
+						for _, o := range held {
+							if o != nil {
+								cur = append(cur, ID(o))
+							} else {
+								cur = append(cur, -1)
+							}
+						}
+						sort.Ints(cur)
+						if fmt.Sprint(cur) != fmt.Sprint(heldIDs) {
+							mu.Lock()
+							problems = append(problems, fmt.Sprintf("reader %d: a snapshot it was holding changed from %v to %v during a later List()", r, heldIDs, cur))
+							mu.Unlock()
+						}
+					}
+					if n%2 == 0 {
+						held, heldIDs = l, append([]int(nil), ids...)
+					} else {
+						held, heldIDs = nil, nil
+						for i := range l {
+							l[i] = nil
+						}
 					}
 					mu.Lock()
 					if len(vers) > 1 {
@@ -168,5 +192,119 @@ func runC15(c *Ctx) {
 			c.Sample(map[string]interface{}{"readers": readers, "read": map[string]interface{}{"completed_before_call": reads[3].lo, "started_after_return": reads[3].hi, "observed_ids": reads[3].ids}})
 		}
 	}
-	c.Rep.Rule = "the real cache goroutine (verif export) in real time, built with the race detector: 1 / 4 / 16 reader goroutines calling List() (and Get()) in a loop against one writer that moves through distinguishable complete states (5 keys all at version i; odd states restricted to 2 keys by a refilter) with sync-by-refilter; each read stamped with the writer's completed-state counter before the call and started-state counter after the return. Oracles: every List() is one complete state (never a mix), within its window (extracted lin_ok), per-reader monotone, the returned slice is scribbled on by the reader, no data race reported by the race detector (a report fails the run). Non-trivial = distinct writer states observed by some reader."
+	// second workload: a label filter, and single watch events that move
+	// objects into and out of it (filter-delete), create and delete them; the
+	// writer's states are what its own returned events replay to (C02)
+	for round := 0; round < rounds; round++ {
+		readers := []int{2, 8}[round%2]
+		ctx, cancel := context.WithCancel(context.Background())
+		lab := &Filt{Tag: FLabels, Map: Map{{1, 1}}}
+		actor := kcache.NewVerifCacheActor(ctx, qlog.Silent(), nil, lab.Go())
+		nops := nstates
+		states := make([][]int, nops+1)
+		states[0] = []int{}
+		mirror := map[[2]int]int{} // key -> id
+		var started, completed atomic.Int64
+		type read struct {
+			lo, hi int
+			ids    []int
+		}
+		var mu sync.Mutex
+		var reads []read
+		var problems []string
+		var wg sync.WaitGroup
+		stop := make(chan struct{})
+		for r := 0; r < readers; r++ {
+			wg.Add(1)
+			go func(r int) {
+				defer wg.Done()
+				for {
+					select {
+					case <-stop:
+						return
+					default:
+					}
+					lo := int(completed.Load())
+					l, err := actor.Reader().List()
+					hi := int(started.Load())
+					if err != nil {
+						return
+					}
+					ids := make([]int, 0, len(l))
+					for _, o := range l {
+						ids = append(ids, ID(o))
+					}
+					sort.Ints(ids)
+					mu.Lock()
+					if len(reads) < 20000 {
+						reads = append(reads, read{lo, hi, ids})
+					}
+					mu.Unlock()
+				}
+			}(r)
+		}
+		for i := 0; i < nops; i++ {
+			k := 1 + i%3
+			o := &Obj{ID: 100000 + i, Kind: KPod, NS: 1, NM: k, RV: fmt.Sprint(i + 1), Spec: SPod}
+			if (i/3)%2 == 0 {
+				o.Labels = Map{{1, 1}} // accepted
+			}
+			ety := 1
+			if i%7 == 6 {
+				ety = 2
+			}
+			started.Store(int64(i + 1))
+			evs, err := actor.Update(kcache.NewEvent(etyTo(ety), o.Go()))
+			if err != nil {
+				problems = append(problems, "writer: "+err.Error())
+				break
+			}
+			for _, e := range evs {
+				key := [2]int{1, k}
+				if e.Type() == kcache.EventTypeDelete {
+					delete(mirror, key)
+				} else {
+					mirror[key] = ID(e.Resource())
+				}
+			}
+			var ids []int
+			for _, id := range mirror {
+				ids = append(ids, id)
+			}
+			sort.Ints(ids)
+			states[i+1] = ids
+			completed.Store(int64(i + 1))
+			if i%40 == 0 {
+				time.Sleep(50 * time.Microsecond)
+			}
+		}
+		close(stop)
+		wg.Wait()
+		// a final read after everything completed must show the final state
+		if l, err := actor.Reader().List(); err == nil {
+			var ids []int
+			for _, o := range l {
+				ids = append(ids, ID(o))
+			}
+			sort.Ints(ids)
+			reads = append(reads, read{nops, nops, ids})
+		}
+		cancel()
+		<-actor.Done()
+		sts := make([]enc.T, len(states))
+		for i, st := range states {
+			sts[i] = enc.Ints(st)
+		}
+		rds := make([]enc.T, len(reads))
+		for i, r := range reads {
+			rds[i] = enc.L(enc.I(r.lo), enc.I(r.hi), enc.Ints(r.ids))
+		}
+		c.Case(enc.L(enc.I(12), enc.L(sts...), enc.L(rds...)))
+		c.Rep.Evaluations += len(reads)
+		c.Stat("reads_update_workload", len(reads))
+		for _, p := range problems {
+			c.Violation("", p, map[string]interface{}{"readers": readers, "round": round, "workload": "updates"})
+		}
+	}
+	c.Rep.Rule = "the real cache goroutine (verif export) in real time, built with the race detector: 1 / 4 / 16 reader goroutines calling List() (and Get()) in a loop against one writer that moves through distinguishable complete states (5 keys all at version i; odd states restricted to 2 keys by a refilter) with sync-by-refilter; each read stamped with the writer's completed-state counter before the call and started-state counter after the return. Oracles: every List() is one complete state (never a mix), within its window (extracted lin_ok), per-reader monotone, a snapshot held across the next read must not change and a scribbled-on one must not show anywhere; a second workload under a label filter of single watch events (updates into and out of the filter, deletes) whose states are the replay of the writer's own returned events; no data race reported by the race detector (a report fails the run). Non-trivial = distinct writer states observed by some reader."
 }
